@@ -1156,7 +1156,10 @@ def class_specs(draw, names, *, max_depth, hashable, open_classes, kw):
     # a class with empty __slots__ has neither hints, slots nor __dict__: the library (by design)
     # tells structured objects from scalars by vars() failing, so such a class is outside U.
     nf = draw(st.integers(1 if fl in ("slots", "dc_slots") else 0, 4))
-    fnames = draw(st.lists(st.sampled_from(["a", "b", "c", "value", "item", "x", "first"]), min_size=nf, max_size=nf, unique=True))
+    fnames = draw(st.lists(st.sampled_from(["a", "b", "c", "value", "item", "x", "first", "items", "keys", "id", "name", "get"]), min_size=nf, max_size=nf, unique=True))
+    if fl.startswith("typeddict") and fnames and draw(st.integers(0, 3)) == 0:
+        # the keys of a TypedDict are data whatever they look like (for classes a leading underscore means "not a field")
+        fnames = ["_" + fnames[0], *fnames[1:]]
     fields = []
     future = draw(st.booleans())
     opened = (*open_classes, (mod, name))
